@@ -488,8 +488,11 @@ static void fl_remaining(char names[][80], int n)
 }
 
 /* ---- in-process oracle -------------------------------------------------------- */
-static int ocall_begin(int ctx) { shim_enter(ctx); return 0; }
-static void ocall_end(void) { shim_leave(); }
+/* every call of the owner is one on a non-blocking socket: a waiting primitive inside it (a control session that
+   blocks the data path) is counted by the shim */
+static long owner_waits;
+static int ocall_begin(int ctx) { shim_enter(ctx); shim_nonblock_watch(true); return 0; }
+static void ocall_end(void) { shim_leave(); shim_nonblock_watch(false); owner_waits += shim_wait_seen(); }
 
 static unsigned char obuf[70000];
 
@@ -781,8 +784,11 @@ static void do_pump(int bursts, const char *ev)
     long bound = n_ctl_lfd > 0 ? pump_bound() : 64L * bursts;
     while (got < bursts && calls < bound) {
 	calls++;
+	long w0 = owner_waits;
 	got += pump_call(&rc, &er);
 	bool expected;
+	if (owner_waits != w0)
+	    unexpected++;	/* the call slept (or would have): the control interface is not passive */
 	if (target == T_DEAD)
 	    expected = true;
 	else if (target == T_SRV)
